@@ -729,6 +729,17 @@ func scenarios() []Scenario {
 			}},
 		{Name: "store-failure-context-canceled", Setup: []engx.Req{fund("alice", 100)}, FailCtx: true, Budget: 40, Reqs: []engx.Req{
 			metaA, xfer(10, "alice", "bob")}},
+		// previews overlapping real writes on OTHER accounts (no lock keeps them apart): nothing of the preview may stay
+		{Name: "preview-disjoint-real", Setup: []engx.Req{fund("alice", 100), fund("carol", 100)}, Budget: 300, Reqs: []engx.Req{
+			dry(xfer(10, "alice", "bob")), xfer(10, "carol", "dave"), xfer(5, "carol", "erin")}},
+		{Name: "two-previews-then-real", Setup: []engx.Req{fund("alice", 100), fund("carol", 100)}, Budget: 300, Reqs: []engx.Req{
+			dry(xfer(10, "alice", "bob")), dry(xfer(10, "carol", "dave")), xfer(5, "erin", "frank"), xfer(5, "world", "erin")}},
+		{Name: "preview-same-reference-between-reals", Setup: []engx.Req{fund("alice", 100), fund("carol", 100), fund("erin", 100)}, Budget: 400, Reqs: []engx.Req{
+			ref(xfer(10, "alice", "bob"), "r30"), dry(ref(xfer(10, "carol", "dave"), "r30")), ref(xfer(10, "erin", "frank"), "r30")}},
+		{Name: "preview-same-key-between-reals", Setup: []engx.Req{fund("alice", 100), fund("carol", 100), fund("erin", 100)}, Budget: 400, Reqs: []engx.Req{
+			ik(xfer(10, "alice", "bob"), "k30"), dry(ik(xfer(10, "carol", "dave"), "k30")), ik(xfer(10, "alice", "bob"), "k30")}},
+		{Name: "preview-revert-between-reverts", Setup: []engx.Req{fund("alice", 100), xfer(40, "alice", "bob")}, Budget: 400, Reqs: []engx.Req{
+			{Kind: "revert", RevertID: 1}, dry(engx.Req{Kind: "revert", RevertID: 1}), {Kind: "revert", RevertID: 1}}},
 		// three spenders of one balance: one holds the locks, two queue behind it (a release must grant them one by one)
 		{Name: "three-spenders", Setup: []engx.Req{fund("alice", 100)}, Budget: 400, Reqs: []engx.Req{
 			xfer(100, "alice", "bob"), xfer(100, "alice", "carol"), xfer(100, "alice", "dave")},
